@@ -11,3 +11,5 @@ import CGV.Props.C15
 #print axioms CGV.C15.C15_chiral
 #print axioms CGV.C15.C15_order_within_fragment
 #print axioms CGV.C15.C15_E1_witness
+#print axioms CGV.C15.C15_E3_witness
+#print axioms CGV.C15.C15_E3_marks_not_transferred
